@@ -2,10 +2,15 @@
 (***************************************************************************)
 (* unit_scaling.transforms.utils.apply_transform and friends (C17): a heap *)
 (* of modules; module 1 is the user's original.                            *)
-(*   module = [backends, rerun, cached, src, inited, calls]                *)
+(*   module = [backends, rerun, cached, live, src, inited, calls]          *)
 (*     backends  the module's backend list (kinds, in list order)          *)
 (*     rerun     the lazy re-trace flag;  cached  the pipeline compiled by *)
 (*               the last re-trace ("none" before the first call)          *)
+(*     live      TorchDynamo still holds the code compiled for this module *)
+(*               (a re-trace of ANY module calls torch._dynamo.reset(),    *)
+(*               which is global: every other module's compiled code is    *)
+(*               dropped and its next call re-traces with the pipeline it  *)
+(*               holds)                                                    *)
 (*     src       the module it was deep-copied from (0 for the original)   *)
 (*     inited    weights re-initialised by unit_scale somewhere in lineage *)
 (* Actions: Apply(kind, m): deep-copy m (fresh storage), append the        *)
@@ -22,7 +27,7 @@ CONSTANT Legacy
 QKinds == {"q1", "q2", "q3"}
 LastKinds == {"track", "compile"}
 Kinds == {"us"} \cup QKinds \cup LastKinds
-Original == [backends |-> <<>>, rerun |-> FALSE, cached |-> <<"none">>, src |-> 0, inited |-> FALSE, calls |-> 0]
+Original == [backends |-> <<>>, rerun |-> FALSE, cached |-> <<"none">>, live |-> FALSE, src |-> 0, inited |-> FALSE, calls |-> 0]
 
 IndexOf(s, P(_)) == LET hits == {i \in 1 .. Len(s) : P(s[i])} IN IF hits = {} THEN 0 ELSE CHOOSE i \in hits : \A j \in hits : i >= j   \* last match, as the loop keeps the last
 \* _order_backends: if the (last) unit-scaling backend sits after the (last) quantisation backend, move it in front of it
@@ -39,13 +44,17 @@ ApplyTo(mods, m, kind) ==      \* the new module appended to the heap
   IN Append(mods, [backends |-> b2,
                    rerun |-> IF "stale_cache" \in Legacy THEN old.cached = <<"none">> ELSE TRUE,
                    cached |-> old.cached,          \* deepcopy copies the cached forward by reference: it is STALE
+                   live |-> IF "stale_cache" \in Legacy THEN old.live ELSE FALSE,
                    src |-> m, inited |-> old.inited \/ kind = "us", calls |-> 0])
 \* Call returns [mods, ran]: the backends actually run by this call (empty when the cached pipeline is reused)
 CallOn(mods, m) ==
   LET md == mods[m] IN
   IF md.backends = <<>> THEN [mods |-> [mods EXCEPT ![m].calls = @ + 1], ran |-> <<>>, eff |-> <<>>]
-  ELSE IF md.rerun THEN [mods |-> [mods EXCEPT ![m].rerun = FALSE, ![m].cached = md.backends, ![m].calls = @ + 1], ran |-> md.backends, eff |-> md.backends]
-  ELSE [mods |-> [mods EXCEPT ![m].calls = @ + 1], ran |-> <<>>, eff |-> md.cached]
+  ELSE IF md.rerun THEN       \* torch._dynamo.reset() is GLOBAL: nobody else's compiled code survives
+       LET dropped == [i \in 1 .. Len(mods) |-> [mods[i] EXCEPT !.live = FALSE]]
+       IN [mods |-> [dropped EXCEPT ![m].rerun = FALSE, ![m].cached = md.backends, ![m].live = TRUE, ![m].calls = @ + 1], ran |-> md.backends, eff |-> md.backends]
+  ELSE IF md.live THEN [mods |-> [mods EXCEPT ![m].calls = @ + 1], ran |-> <<>>, eff |-> md.cached]
+  ELSE [mods |-> [mods EXCEPT ![m].live = TRUE, ![m].calls = @ + 1], ran |-> md.cached, eff |-> md.cached]   \* re-trace after somebody else's reset
 
 \* ---- what C17 demands
 Applied(mods, m) == {mods[m].backends[i] : i \in 1 .. Len(mods[m].backends)}
